@@ -199,7 +199,8 @@ def check_axes_primitive(ctx):
     rets = [s for s in ast.walk(fi.node) if isinstance(s, ast.Return)]
     if len(rets) != 1 or len(fi.params) != 2:
         raise AnalysisError('Domain.axes: unrecognised form')
-    r = rets[0].value
+    from ..normalise import Defs, expand
+    r = expand(rets[0].value, Defs(fi.body), comps=True)
     p = fi.params[1]
     inner = r
     if isinstance(r, ast.Call) and isinstance(r.func, ast.Name) and r.func.id in ('tuple', 'list') and len(r.args) == 1:
@@ -208,7 +209,10 @@ def check_axes_primitive(ctx):
     if isinstance(inner, (ast.GeneratorExp, ast.ListComp)) and len(inner.generators) == 1:
         g = inner.generators[0]
         e = inner.elt
-        ok = (not g.ifs and U(g.iter) == p and isinstance(e, ast.Call) and isinstance(e.func, ast.Attribute)
+        it = g.iter
+        while isinstance(it, ast.Call) and isinstance(it.func, ast.Name) and it.func.id in ('tuple', 'list') and len(it.args) == 1:
+            it = it.args[0]          # an order-preserving copy of the requested sequence
+        ok = (not g.ifs and U(it) == p and isinstance(e, ast.Call) and isinstance(e.func, ast.Attribute)
               and e.func.attr == 'index' and U(e.func.value) == 'self.attrs'
               and len(e.args) == 1 and U(e.args[0]) == U(g.target))
     elif any(isinstance(n, (ast.GeneratorExp, ast.ListComp)) for n in ast.walk(inner)) and \
